@@ -25,6 +25,24 @@ type UnionV struct {
 }
 type BufV struct{ sb strings.Builder }
 
+// DictV models dict.Dict: a mutable map. Iteration order is unspecified (a Go map underneath), so the
+// generator only reads Keys / Values / KVs through order-insensitive consumers; the model keeps
+// insertion order.
+type DictV struct {
+	order []string
+	m     map[string][2]Value
+}
+
+func dictKey(v Value) string { return fmt.Sprintf("%T:%s", v, Show(v)) }
+
+func (d *DictV) set(k, v Value) {
+	id := dictKey(k)
+	if _, ok := d.m[id]; !ok {
+		d.order = append(d.order, id)
+	}
+	d.m[id] = [2]Value{k, v}
+}
+
 // Closure is a user function, lambda or local function, possibly partially applied.
 type Closure struct {
 	Params []string
@@ -639,6 +657,8 @@ var builtinArity = map[string]int{
 	"strings.Concat": 2, "strings.Length": 1, "strings.AppendTail": 2, "strings.AppendHead": 2, "strings.HasSuffix": 2,
 	"strings.TrimSuffix": 2, "strings.HasPrefix": 2, "strings.EncloseWith": 3, "strings.Split": 2, "strings.IsEmpty": 1, "strings.IsNotEmpty": 1,
 	"buf.New": 1, "buf.Write": 2, "buf.String": 1,
+	"dict.New": 1, "dict.Add": 3, "dict.ContainsKey": 2, "dict.TryFind": 2, "dict.Item": 2, "dict.Keys": 1, "dict.Values": 1,
+	"dict.KVs": 1, "dict.ToDict": 1,
 }
 
 func (ev *Eval) builtin(b *Builtin, a []Value) Value {
@@ -862,6 +882,49 @@ func (ev *Eval) builtin(b *Builtin, a []Value) Value {
 		return UnitV{}
 	case "buf.String":
 		return a[0].(*BufV).sb.String()
+	case "dict.New":
+		return &DictV{m: map[string][2]Value{}}
+	case "dict.ToDict":
+		d := &DictV{m: map[string][2]Value{}}
+		for _, kv := range elems(a[0]) {
+			t := kv.(*TupleV)
+			d.set(t.E[0], t.E[1])
+		}
+		return d
+	case "dict.Add":
+		a[0].(*DictV).set(a[1], a[2])
+		return UnitV{}
+	case "dict.ContainsKey":
+		_, ok := a[0].(*DictV).m[dictKey(a[1])]
+		return ok
+	case "dict.TryFind":
+		if kv, ok := a[0].(*DictV).m[dictKey(a[1])]; ok {
+			return &TupleV{E: []Value{kv[1], true}}
+		}
+		if b.ResT == nil || b.ResT.K != "tuple" {
+			fail("dict.TryFind: result type unknown")
+		}
+		return &TupleV{E: []Value{zeroOf(b.ResT.E[0], ev), false}}
+	case "dict.Item":
+		if kv, ok := a[0].(*DictV).m[dictKey(a[1])]; ok {
+			return kv[1]
+		}
+		return zeroOf(b.ResT, ev) // a missing key gives Go's zero value
+	case "dict.Keys", "dict.Values", "dict.KVs":
+		d := a[0].(*DictV)
+		var out []Value
+		for _, id := range d.order {
+			kv := d.m[id]
+			switch name {
+			case "dict.Keys":
+				out = append(out, kv[0])
+			case "dict.Values":
+				out = append(out, kv[1])
+			default:
+				out = append(out, &TupleV{E: []Value{kv[0], kv[1]}})
+			}
+		}
+		return sl(out)
 	}
 	fail("builtin %s not modelled", name)
 	return nil
